@@ -249,9 +249,9 @@ class Gen:
         return L(S("and"), *items)
 
 
-def domain_tree(actions, name="dom", consts=True, reqs=(":typing",)):
+def domain_tree(actions, name="dom", consts=True, reqs=(":typing",), types=None):
     parts = [S("define"), L(S("domain"), S(name)), L(S(":requirements"), *[S(r) for r in reqs]),
-             L(S(":types"), *typed(TYPES))]
+             L(S(":types"), *typed(types or TYPES))]
     if consts:
         parts.append(L(S(":constants"), *typed(CONSTS)))
     parts.append(L(S(":predicates"), *[L(S(p), *typed([[f"?a{i}", t] for i, t in enumerate(sig)]))
@@ -296,6 +296,17 @@ def random_state(rng, objs, density=None):
     facts = [a for a in atoms if rng.random() < d]
     fl = [[f, a, rng.choice(GRID)] for f, a in ground_fluents(objs)]
     return {"facts": facts, "fl": fl}
+
+
+def jitter_states(rng, case, step=8):
+    """move fluent values by 0 or +-1/step: with the tolerance configured to 2/step the two sides of a
+    comparison are then often less than one tolerance apart without being equal"""
+    from fractions import Fraction
+    for st in case["states"]:
+        for f in st["fl"]:
+            v = Fraction(f[2][0], f[2][1]) + Fraction(rng.choice([0, 1, -1, 1, -1]), step)
+            f[2] = [v.numerator, v.denominator]
+    return case
 
 
 def calls_for(rng, params, objs, n):
